@@ -18,15 +18,18 @@ class Prop:
     stubs = []
 
     def generate(self, rng, tier):
-        depth = rng.choice([1, 1, 2, 2, 3, 4])
+        depth = rng.choice([0, 1, 1, 2, 2, 3, 4])
         sc = pipe.gen(rng, depth, nonconforming_p=0.35, rogue_p=0.25)
+        for s in sc["sources"]:
+            if s["kind"] == "cold" and rng.random() < 0.25:
+                s["kind"] = "syncthen"  # first event synchronously inside subscribe(), uncaught; the rest later
         sites = catalog.sites_of(sc["program"])
         faults = []
         if sites and rng.random() < 0.5:
             for _ in range(rng.choice([1, 1, 2])):
                 faults.append({"site": rng.choice(sites), "k": rng.randrange(0, 4)})
         sc["faults"] = faults
-        if rng.random() < 0.2:
+        if rng.random() < (0.5 if depth == 0 else 0.2):
             sc["sub_raise"] = rng.randrange(0, 4)
         r = rng.random()
         if r < 0.15:
